@@ -13,13 +13,13 @@ def renameOps (ro : List (Path × Path)) : List Op := ro.map fun a => Op.rename 
 
 def eraseAll (td : List Path) (ro : List (Path × Path)) : List Path := ro.foldl (fun td a => td.erase a.2) td
 
-theorem renameLoop_fst (fails : Nat → Bool) (ro : List (Path × Path)) (td : List Path) (a : Acc) :
-    (renameLoop fails ro td a).1 = eraseAll td ro := by
+theorem renameLoop_fst (ro : List (Path × Path)) (td : List Path) (a : Acc) :
+    (renameLoop (fun _ => false) ro td a).1 = eraseAll td ro := by
   induction ro generalizing td a with
   | nil => rfl
   | cons x rest ih =>
     obtain ⟨t, f⟩ := x
-    simp only [renameLoop, eraseAll, List.foldl_cons]
+    simp only [renameLoop, eraseAll, List.foldl_cons, Bool.not_false, if_true]
     rw [ih]; rfl
 
 theorem renameLoop_ok (fails : Nat → Bool) (ro : List (Path × Path)) (td : List Path) (a : Acc)
@@ -82,14 +82,15 @@ theorem finish_ok_trace (s : Scn) (ro : List (Path × Path)) (dord : List Path) 
     (hne : ro ≠ []) (hok : (finish s ro dord fails).2 = false) :
     trace s ro dord fails = tempOps s ++ (renameOps ro ++ delOps s dord) := by
   have hro : ro.isEmpty = false := by cases ro <;> simp_all
-  simp only [finish, hro] at hok
-  simp only [trace, finish, hro]
-  obtain ⟨h1, h2⟩ := deleteLoop_ok _ _ _ _ hok
-  obtain ⟨_, h3⟩ := renameLoop_ok _ _ _ _ h1
-  simp only [Bool.false_eq_true, if_false]
-  rw [h2, h3]
-  simp [successOps]
-
+  simp only [finish, hro, Bool.false_eq_true, if_false] at hok
+  simp only [trace, finish, hro, Bool.false_eq_true, if_false]
+  cases herr : (renameLoop fails ro (toDelete0 s) ⟨0, false, []⟩).2.err
+  · simp only [herr, Bool.false_eq_true, if_false] at hok ⊢
+    obtain ⟨h1, h2⟩ := deleteLoop_ok _ _ _ _ hok
+    obtain ⟨_, h3⟩ := renameLoop_ok _ _ _ _ h1
+    rw [h2, h3]
+    simp [successOps]
+  · simp [herr] at hok
 
 /-! ### the directory after the temp files are written -/
 
